@@ -75,6 +75,8 @@ def audit(pid, state):
         if not found:
             problems.append({"obligation": mod, "why": "no theorems found in module"})
         for name, axs in found:
+            if re.search(r"\.eq_\d+$|\.eq_def$|\.match_\d+", name):
+                continue  # auto-generated equation lemmas of definitions, not property theorems
             axl = [a.strip() for a in axs.replace("\n", " ").split(",") if a.strip()]
             ok = all(a in ALLOWED_AXIOMS for a in axl)
             obligations.append({"theorem": name, "axioms": axl, "ok": ok})
